@@ -379,8 +379,8 @@ def run_one(t):
         # a few ordinary link faults before the silence create lost segments (NAK procedure)
         if t.choose(2, "pre faults"):
             w.link.enabled = {"drop"}
-            w.link.rate = (1, 4)
-            w.link.budget = 1 + t.choose(2, "pre fault budget")
+            w.link.rate = [(1, 4), (1, 2)][t.choose(2, "pre fault rate")]
+            w.link.budget = 1 + t.choose(4, "pre fault budget")  # several gaps: progress on one while another stays open
         # timer / PDU arrival races: in a quarter of the runs both entities run a main loop with a period around the
         # timer intervals, so that awaited PDUs are handed over in the call that also finds the timer expired
         # a sixth of the runs: the source file vanishes from the sender's filestore once the EOF PDU was built (storage
